@@ -194,9 +194,13 @@ def engine_bin(engine):
 
 def run_engine_gen(engine, tier, seed, outpath, extra=None):
     env = {"VERIF_SEED": str(seed)}
+    limit = 900 if tier == "quick" else 6 * 3600
     with open(outpath, "w") as f:
-        p = subprocess.run([engine_bin(engine), "gen", "--tier", tier] + (extra or []), stdout=f,
-                           stderr=subprocess.PIPE, text=True, env={**os.environ, **env}, timeout=6 * 3600)
+        try:
+            p = subprocess.run([engine_bin(engine), "gen", "--tier", tier] + (extra or []), stdout=f,
+                               stderr=subprocess.PIPE, text=True, env={**os.environ, **env}, timeout=limit)
+        except subprocess.TimeoutExpired:
+            return 124, "engine %s did not finish generating within %d s (calls into the library block or crawl)" % (engine, limit)
     return p.returncode, p.stderr[-2000:]
 
 
@@ -262,7 +266,11 @@ def corpus_lines(engine):
 # ---------------------------------------------------------------------------------------------
 # shrinking (generic over the line protocol: space separated fields, comma lists, numbers)
 
+# which space-separated fields of a case may be shrunk (list fields: drop elements; numeric: smaller)
+SHRINK_FIELDS = {"mlw": [1, 3, 4], "spy": [3], "fmt": [4], "queue": [3], "queue0": [2], "sock": [5], "holder": [2], "mac": [4]}
+
 ENGINE_OF = {"mlw": "mlw", "spy": "mlw", "fmt": "fmt", "std": "fmt", "queue": "queue", "qstress": "queue", "queue0": "queue",
+             "qburst": "queue", "qlatency": "queue",
              "sock": "sock", "sockmt": "sock", "socklock": "sock", "holder": "holder", "mac": "macros"}
 
 
@@ -294,7 +302,10 @@ def shrink(engine, prop, caseline, want, budget=400):
     while improved and tries < budget:
         improved = False
         fields = best.split(" ")
+        allowed = SHRINK_FIELDS.get(fields[0], [])
         for i in range(1, len(fields)):
+            if i not in allowed:
+                continue
             f = fields[i]
             cands = []
             sep = ";" if ";" in f else ","
